@@ -42,7 +42,7 @@ def msg_class(msg):
     return -1
 
 
-PANIC_SITES = {"unwrap": {1050, 1051, 965, 970}, "overflow": {100}}
+PANIC_SITES = {"unwrap": {965, 970}}
 
 
 def panic_kind(msg):
@@ -434,12 +434,12 @@ def v8_verdicts(cases, jobs=None):
 # ---------------------------------------------------------------------------------------------------------
 # V8 disagreement classes (DESIGN.md C12 pre-assessment)
 # ---------------------------------------------------------------------------------------------------------
+# retired (repaired in /repo by fix: commits, a recurrence would show up as unclassified):
+#   "i64_wraparound_in_digits"  (digit accumulators now saturate), "panic_group_name_at_end_of_input" (`(?<a`)
 KNOWN_V8_CLASSES = [
     "noflags_reports_only_if_invalid_in_both_modes",
     "utf16_length_cut_without_u",
     "nul_escape_followed_by_digit_under_u",
-    "i64_wraparound_in_digits",
-    "panic_group_name_at_end_of_input",
     "property_tables_older_than_v8",
     "class_negation_caret_parsed_as_class_atom",
     "v8_clamps_quantifier_bounds_to_2_31",      # V8 deviates from the specification here, the implementation does not
@@ -491,9 +491,7 @@ def classify_v8_disagreement(pattern, flags, impl_reports, v8_throws, aux=None):
         aux = aux_for([(pattern, flags)])[0]
     has_u = "u" in flags
     if impl_reports == "panic" or aux["impl_n"] == "panic" or aux["impl_u"] == "panic":
-        if not has_u and _GROUP_NAME_OPEN.search(truncated_as_seen(pattern)):
-            return "panic_group_name_at_end_of_input"
-        return None
+        return None      # no panic is a known class any more
     # which per-mode verdict of the implementation is at odds with V8?
     mode_bad = {"u": aux["impl_u"] != aux["v8_u"], "n": aux["impl_n"] != aux["v8_n"]}
     relevant = ["u"] if has_u else ["n"] if flags else ["u", "n"]
@@ -508,8 +506,6 @@ def classify_v8_disagreement(pattern, flags, impl_reports, v8_throws, aux=None):
             continue
         if m == "n" and any(ord(c) > 0xFFFF for c in pattern) and aux.get("v8_trunc_n") == aux["impl_n"]:
             causes.add("utf16_length_cut_without_u")
-        elif _LONG_DEC.search(pattern) or _LONG_HEX.search(pattern):
-            causes.add("i64_wraparound_in_digits")
         elif _v8_clamped_bounds(pattern) and aux["impl_" + m] is True:
             causes.add("v8_clamps_quantifier_bounds_to_2_31")
         elif _NEG_CLASS_DASH.search(pattern) and aux["impl_" + m] is True:
